@@ -1,9 +1,11 @@
-(* C01 — termination of the leaf loops of the parser model within their fuel
-   [lfuel = S (len src)] (every iteration consumes at least one byte or exits),
-   and progress of the node parsers (Primary/Indexing/Compound consume at least
-   one byte when the next rune can start them, MapPair on an ampersand, Redir on
-   a redirection sign).  The fuel bound of the 18 mutually recursive node
-   parsers is covered by the sweep in C01_sweep.v only; see checks/C01.md. *)
+(* C01 — termination of the parser model: the leaf loops end within their fuel
+   [lfuel = S (len src)] (every iteration consumes at least one byte or
+   exits); the node parsers make progress (Primary/Indexing/Compound consume at
+   least one byte when the next rune can start them, MapPair on an ampersand,
+   Redir on a redirection sign); and, by a rank/fuel induction over the 18
+   mutually recursive bodies ([FUELK*(len-pos) + rank <= fuel] suffices, a call
+   without guaranteed progress going to a lower rank), parse_model never runs
+   out of fuel. *)
 From verif Require Import lib.Base lib.Utf8 lib.ListX gen.Consts model.C01_Parse model.C01
   proofs.C01_proofs proofs.C01_Utf8_proofs proofs.C01_Parse_proofs.
 From Coq Require Import Arith Lia ZArith.
@@ -353,7 +355,7 @@ Proof.
       rewrite Pa. replace (S (pos ps) - 1) with (pos ps) by lia.
       assert (Tx : [126%N] = slice src (pos ps) (S (pos ps))).
       { unfold slice. replace (S (pos ps) - pos ps) with 1 by lia. now rewrite Sk. }
-      assert (C01_proofs.WF true src (T KIndexing NormalExpr (pos ps) (S (pos ps)) [126%N]
+      assert (C01_proofs.WF src (T KIndexing NormalExpr (pos ps) (S (pos ps)) [126%N]
                    [T KPrimary PTilde (pos ps) (S (pos ps)) [126%N] []])) as Wi.
       { constructor; auto; try lia; [intros _; cbn; auto|].
         repeat constructor; auto; try lia. congruence. }
@@ -408,7 +410,7 @@ Proof.
   assert (BF b1 (pos ps2)) as HB1.
   { unfold b1. apply addSep_ok; [apply S2|].
     destruct left as [l|].
-    - destruct HL as [Wl [Tl Kl]]. pose proof (WF_range src true _ Wl) as [R1 R2].
+    - destruct HL as [Wl Tl]. pose proof (WF_range src _ Wl) as [R1 R2].
       unfold BI, cover; cbn [nb_ch nb_from rev app chain]. repeat split; auto; lia.
     - apply (BI_mono src _ (pos ps)); [apply BF_empty|lia]. }
   pose proof (LoopOK_refl src _ _ S2 HB1) as L.
@@ -496,10 +498,549 @@ Qed.
 
 End Step.
 
+
+(* ------------------------------------------------------------------------ *)
+(* termination of the node parsers within the fuel bound                     *)
+
+Lemma spacesLoop_progress fu nl ps ps' : SI ps ->
+  isInlineWhitespace (peek ps) || Z.eqb (peek ps) 35 || (nl && isWhitespace (peek ps)) = true ->
+  spacesLoop src fu nl ps = Some ps' -> pos ps < pos ps'.
+Proof.
+  intros H C E. destruct fu as [|fu]; [discriminate|]. cbn [spacesLoop] in E.
+  assert (peek ps <> EOF) as NE.
+  { intros X. rewrite X in C. cbn in C. now rewrite andb_false_r in C. }
+  pose proof (adv_strict _ H NE) as Lt. destruct (adv_spec is_print src _ H) as [H1 _].
+  destruct (isInlineWhitespace (peek ps)).
+  { destruct (spacesLoop_ok is_print src _ _ _ _ H1 E) as [_ B]. lia. }
+  destruct (nl && isWhitespace (peek ps)).
+  { destruct (spacesLoop_ok is_print src _ _ _ _ H1 E) as [_ B]. lia. }
+  cbn [orb] in C. rewrite orb_false_r in C. rewrite C in E.
+  destruct (commentLoop src (lfuel src) (adv ps)) as [ps1|] eqn:Q; [|discriminate].
+  destruct (commentLoop_ok is_print src _ _ _ H1 Q) as [S1 B1].
+  destruct (spacesLoop_ok is_print src _ _ _ _ S1 E) as [_ B]. lia.
+Qed.
+
+Lemma parseSpaces_progress b ps nl b' ps' : SI ps ->
+  isInlineWhitespace (peek ps) || Z.eqb (peek ps) 35 || (nl && isWhitespace (peek ps)) = true ->
+  parseSpacesInner src b ps nl = Some (b', ps') -> pos ps < pos ps'.
+Proof.
+  intros H C E. unfold parseSpacesInner in E.
+  destruct (spacesLoop src (lfuel src) nl ps) as [ps1|] eqn:Q; [|discriminate].
+  inversion E; subst. eapply spacesLoop_progress; eauto.
+Qed.
+
+Lemma parseSepsLoop_total fu : forall b ps any, SI ps -> BF b (pos ps) -> n - pos ps < fu ->
+  exists r, parseSepsLoop src fu b ps any = Some r.
+Proof.
+  induction fu as [|fu IH]; intros b ps any H HB Hf; [lia|]. cbn [parseSepsLoop].
+  destruct (isPipelineSep (peek ps)) eqn:PS.
+  - assert (peek ps <> EOF) as NE by (intros E; rewrite E in PS; discriminate).
+    rewrite (parseSep_peek b ps (peek ps) eq_refl).
+    pose proof (adv_addSep_ok is_print src b ps H (proj1 HB)) as L.
+    pose proof (adv_strict _ H NE). pose proof (SI_le src _ (LoopOK_SI src _ _ _ _ L)).
+    apply IH; [apply L|apply L|lia].
+  - destruct (isInlineWhitespace (peek ps) || Z.eqb (peek ps) 35) eqn:C; [|eauto].
+    destruct (parseSpacesInner_total is_print src b ps false H) as [[b1 ps1] Q]. unfold parseSpaces. rewrite Q.
+    pose proof (parseSpacesInner_ok is_print src _ _ _ _ _ H (proj1 HB) Q) as L.
+    assert (pos ps < pos ps1) as Lt.
+    { eapply parseSpaces_progress; eauto. now rewrite C. }
+    pose proof (SI_le src _ (LoopOK_SI src _ _ _ _ L)).
+    apply IH; [apply L|apply L|lia].
+Qed.
+
+Lemma parseSepsLoop_progress fu : forall b ps any b' ps', SI ps -> BF b (pos ps) ->
+  parseSepsLoop src fu b ps any = Some (b', ps', true) -> any = true \/ pos ps < pos ps'.
+Proof.
+  induction fu as [|fu IH]; intros b ps any b' ps' H HB E; [discriminate|]. cbn [parseSepsLoop] in E.
+  destruct (isPipelineSep (peek ps)) eqn:PS.
+  - assert (peek ps <> EOF) as NE by (intros X; rewrite X in PS; discriminate).
+    rewrite (parseSep_peek b ps (peek ps) eq_refl) in E.
+    pose proof (adv_addSep_ok is_print src b ps H (proj1 HB)) as L.
+    pose proof (adv_strict _ H NE).
+    pose proof (parseSepsLoop_ok is_print src _ _ _ _ _ _ _ (LoopOK_SI src _ _ _ _ L) (LoopOK_BF src _ _ _ _ L) E) as L2.
+    pose proof (LoopOK_le _ _ _ _ L2). right. lia.
+  - destruct (isInlineWhitespace (peek ps) || Z.eqb (peek ps) 35) eqn:C.
+    + unfold parseSpaces in E. destruct (parseSpacesInner src b ps false) as [[b1 ps1]|] eqn:Q; [|discriminate].
+      pose proof (parseSpacesInner_ok is_print src _ _ _ _ _ H (proj1 HB) Q) as L.
+      destruct (IH _ _ _ _ _ (LoopOK_SI src _ _ _ _ L) (LoopOK_BF src _ _ _ _ L) E) as [A|A]; [now left|].
+      pose proof (LoopOK_le _ _ _ _ L). right. lia.
+    + inversion E; subst. now left.
+Qed.
+
+Definition bud (ps : pst) (r : nat) : nat := 24 * (n - pos ps) + r.
+
+Definition NodeT (r : nat) (p : pst -> option (tree * pst)) (k : nat) : Prop :=
+  forall ps, SI ps -> bud ps r <= k -> exists x, p ps = Some x.
+Definition LoopT {A} (r : nat) (l : nb -> pst -> option A) (k : nat) : Prop :=
+  forall b ps, SI ps -> BF b (pos ps) -> bud ps r <= k -> exists x, l b ps = Some x.
+
+(* rank of each parser: a call without guaranteed progress goes to a lower rank *)
+Record Tot (k : nat) (c : callees) : Prop := mkTot {
+  tChunk : NodeT 10 (cChunk c) k;
+  tChunkLoop : LoopT 9 (cChunkLoop c) k;
+  tPipeline : NodeT 8 (cPipeline c) k;
+  tPipelineLoop : LoopT 1 (cPipelineLoop c) k;
+  tForm : NodeT 7 (cForm c) k;
+  tFormLoop : LoopT 6 (cFormLoop c) k;
+  tRedir : forall left ps, SI ps -> isRedirSign (peek ps) = true -> left_ok src left ps ->
+           bud ps 5 <= k -> exists x, cRedir c left ps = Some x;
+  tCompound : forall ctx, NodeT 4 (cCompound c ctx) k;
+  tCompoundLoop : forall ctx, LoopT 3 (cCompoundLoop c ctx) k;
+  tIndexing : forall ctx, NodeT 2 (cIndexing c ctx) k;
+  tIndexingLoop : LoopT 1 (cIndexingLoop c) k;
+  tArray : NodeT 6 (cArray c) k;
+  tArrayLoop : LoopT 5 (cArrayLoop c) k;
+  tPrimary : forall ctx, NodeT 1 (cPrimary c ctx) k;
+  tLbracketLoop : forall hp he, LoopT 6 (fun b ps => cLbracketLoop c b hp he ps) k;
+  tLambdaLoop : LoopT 6 (cLambdaLoop c) k;
+  tBracedLoop : LoopT 5 (cBracedLoop c) k;
+  tMapPair : NodeT 5 (cMapPair c) k
+}.
+
+Lemma Tot0 : Tot 0 callees0.
+Proof. constructor; repeat intro; unfold bud in *; lia. Qed.
+
+
+Section TotStep.
+Variable c : callees.
+Variable k : nat.
+Hypothesis G : Good src c.
+Hypothesis P : Prog c.
+Hypothesis TT : Tot k c.
+
+Ltac ext L R :=
+  let L' := fresh "L" in
+  pose proof (LoopOK_trans src _ _ _ _ _ _ L R) as L'; clear L; rename L' into L.
+Ltac ext_node L S Q :=
+  ext L (push_node src _ _ _ _ (LoopOK_BF src _ _ _ _ L) (proj1 (S _ _ _ (LoopOK_SI src _ _ _ _ L) Q))).
+Ltac ext_spaces L Q :=
+  ext L (parseSpacesInner_ok is_print src _ _ _ _ _ (LoopOK_SI src _ _ _ _ L) (LoopOK_BI src _ _ _ _ L) Q).
+Ltac ext_loop L S Q :=
+  ext L (S _ _ _ _ (LoopOK_SI src _ _ _ _ L) (LoopOK_BF src _ _ _ _ L) Q).
+Ltac ext_loopx L S Q :=
+  ext L (S _ _ _ _ _ (LoopOK_SI src _ _ _ _ L) (LoopOK_BF src _ _ _ _ L) Q).
+Ltac ext_sep L Q :=
+  ext L (proj1 (parseSep_ok is_print src _ _ _ _ _ _ (LoopOK_SI src _ _ _ _ L) (LoopOK_BF src _ _ _ _ L) Q)).
+Ltac ext_expect L Q :=
+  ext L (expectSep_ok is_print src _ _ _ _ _ _ (LoopOK_SI src _ _ _ _ L) (LoopOK_BF src _ _ _ _ L) Q).
+Ltac reroot L :=
+  let L' := fresh "L" in
+  pose proof (LoopOK_refl src _ _ (LoopOK_SI src _ _ _ _ L) (LoopOK_BF src _ _ _ _ L)) as L';
+  clear L; rename L' into L.
+Ltac pre L :=
+  let X := fresh "Le" in pose proof (LoopOK_le _ _ _ _ L) as X;
+  let Y := fresh "Sn" in pose proof (SI_le src _ (LoopOK_SI src _ _ _ _ L)) as Y.
+Ltac bd := unfold bud in *; lia.
+
+(* a call to a node parser of the previous level *)
+Tactic Notation "tnode" ident(L) constr(TL) constr(GL) "as" simple_intropattern(p) ident(Q) :=
+  pre L; destruct (TL _ (LoopOK_SI src _ _ _ _ L) ltac:(bd)) as [p Q]; rewrite Q; cbv beta iota;
+  ext_node L GL Q.
+Tactic Notation "tloop" ident(L) constr(TL) constr(GL) "as" simple_intropattern(p) ident(Q) :=
+  pre L; destruct (TL _ _ (LoopOK_SI src _ _ _ _ L) (LoopOK_BF src _ _ _ _ L) ltac:(bd)) as [p Q];
+  rewrite Q; cbv beta iota; ext_loop L GL Q.
+Tactic Notation "tloopx" ident(L) constr(TL) constr(GL) "as" simple_intropattern(p) ident(Q) :=
+  pre L; destruct (TL _ _ (LoopOK_SI src _ _ _ _ L) (LoopOK_BF src _ _ _ _ L) ltac:(bd)) as [p Q];
+  rewrite Q; cbv beta iota; ext_loopx L GL Q.
+Tactic Notation "tspaces" ident(L) "as" simple_intropattern(p) ident(Q) :=
+  match goal with |- context [parseSpacesInner src ?b ?ps ?nl] =>
+    destruct (parseSpacesInner_total is_print src b ps nl (LoopOK_SI src _ _ _ _ L)) as [p Q];
+    rewrite Q; cbv beta iota; ext_spaces L Q end.
+Tactic Notation "tsep" ident(L) "as" simple_intropattern(p) ident(Q) :=
+  match goal with |- context [parseSep src ?b ?ps ?sep] =>
+    destruct (parseSep src b ps sep) as p eqn:Q; cbv beta iota end.
+Tactic Notation "texpect" ident(L) "as" simple_intropattern(p) ident(Q) :=
+  match goal with |- context [expectSep src ?b ?ps ?sep ?cd] =>
+    destruct (expectSep src b ps sep cd) as p eqn:Q; cbv beta iota; ext_expect L Q end.
+
+Lemma chunk_tot : NodeT 10 (chunk_body src c) (S k).
+Proof.
+  intros ps H Hb. unfold chunk_body, parseSeps.
+  pose proof (LoopOK_start src _ H) as L.
+  destruct (parseSepsLoop_total (lfuel src) _ ps false H (BF_empty src _)) as [[[b1 ps1] any1] Q1].
+  { pose proof (SI_le src _ H). unfold lfuel, C01_Parse.n. lia. }
+  rewrite Q1. cbv beta iota.
+  ext L (parseSepsLoop_ok is_print src _ _ _ _ _ _ _ (LoopOK_SI src _ _ _ _ L) (LoopOK_BF src _ _ _ _ L) Q1).
+  tloop L (tChunkLoop k c TT) (gChunkLoop src c G) as [b2 ps2] Q2. eauto.
+Qed.
+
+Lemma chunkLoop_tot : LoopT 9 (chunkLoop_body is_print src c) (S k).
+Proof.
+  intros b ps H HB Hb. unfold chunkLoop_body, parseSeps.
+  pose proof (LoopOK_refl src _ _ H HB) as L.
+  destruct (startsPipeline _ _); [|eauto].
+  tnode L (tPipeline k c TT) (gPipeline src c G) as [t1 ps1] Q1. pre L.
+  destruct (parseSepsLoop_total (lfuel src) (push t1 b) ps1 false (LoopOK_SI src _ _ _ _ L) (LoopOK_BF src _ _ _ _ L)) as [[[b2 ps2] any2] Q2].
+  { pose proof (SI_le src _ (LoopOK_SI src _ _ _ _ L)). unfold lfuel, C01_Parse.n. lia. }
+  rewrite Q2. cbv beta iota.
+  destruct any2; [|eauto].
+  destruct (parseSepsLoop_progress _ _ _ _ _ _ (LoopOK_SI src _ _ _ _ L) (LoopOK_BF src _ _ _ _ L) Q2) as [X|Lt]; [discriminate|].
+  ext L (parseSepsLoop_ok is_print src _ _ _ _ _ _ _ (LoopOK_SI src _ _ _ _ L) (LoopOK_BF src _ _ _ _ L) Q2).
+  pre L. apply (tChunkLoop k c TT); [apply L|apply L|bd].
+Qed.
+
+Lemma pipeline_tot : NodeT 8 (pipeline_body src c) (S k).
+Proof.
+  intros ps H Hb. unfold pipeline_body, parseSpaces.
+  pose proof (LoopOK_start src _ H) as L.
+  tnode L (tForm k c TT) (gForm src c G) as [t1 ps1] Q1.
+  tloopx L (tPipelineLoop k c TT) (gPipelineLoop src c G) as [[b2 ps2] ok2] Q2.
+  destruct (negb ok2); [eauto|].
+  tspaces L as [b3 ps3] Q3.
+  destruct (Z.eqb _ 38); [|eauto].
+  ext L (adv_addSep_ok is_print src _ _ (LoopOK_SI src _ _ _ _ L) (LoopOK_BI src _ _ _ _ L)).
+  tspaces L as [b5 ps5] Q5. eauto.
+Qed.
+
+Lemma sep_strict b ps sep b' ps' : SI ps ->
+  parseSep src b ps sep = (true, b', ps') -> (0 <= sep)%Z -> pos ps < pos ps'.
+Proof.
+  intros H E Hs. unfold parseSep in E. destruct (Z.eqb_spec (peek ps) sep) as [Q|Q]; [|discriminate].
+  assert (ps' = adv ps) by congruence. subst ps'.
+  apply adv_strict; auto. rewrite Q. unfold EOF, pkg_parse.eof. lia.
+Qed.
+
+Ltac selfcall L TL := pre L; apply TL; [apply L|apply L|bd].
+
+Lemma pipelineLoop_tot : LoopT 1 (pipelineLoop_body is_print src c) (S k).
+Proof.
+  intros b ps H HB Hb. unfold pipelineLoop_body, parseSpacesAndNewlines.
+  pose proof (LoopOK_refl src _ _ H HB) as L.
+  tsep L as [[ok1 b1] ps1] Q1. destruct ok1; cbn [negb]; [|eauto].
+  pose proof (sep_strict _ _ _ _ _ H Q1 ltac:(lia)) as Lt. ext_sep L Q1. reroot L.
+  tspaces L as [b2 ps2] Q2.
+  destruct (negb _); [eauto|].
+  tnode L (tForm k c TT) (gForm src c G) as [t3 ps3] Q3.
+  selfcall L (tPipelineLoop k c TT).
+Qed.
+
+Lemma form_tot : NodeT 7 (form_body src c) (S k).
+Proof.
+  intros ps H Hb. unfold form_body, parseSpaces.
+  pose proof (LoopOK_start src _ H) as L.
+  tnode L (tCompound k c TT CmdExpr) (gCompound src c G CmdExpr) as [t1 ps1] Q1.
+  tspaces L as [b2 ps2] Q2.
+  tloop L (tFormLoop k c TT) (gFormLoop src c G) as [b3 ps3] Q3. eauto.
+Qed.
+
+Lemma formLoop_tot : LoopT 6 (formLoop_body is_print src c) (S k).
+Proof.
+  intros b ps H HB Hb. unfold formLoop_body, parseSpaces. cbv zeta.
+  pose proof (LoopOK_refl src _ _ H HB) as L.
+  destruct (Z.eqb_spec (peek ps) 38) as [P38|_].
+  { rewrite (backup_adv is_print src _ H). destruct (negb _); [eauto|].
+    tnode L (tMapPair k c TT) (gMapPair src c G) as [t1 ps1] Q1.
+    pose proof (pMapPair c P _ _ _ H P38 Q1) as Lt. reroot L.
+    tspaces L as [b2 ps2] Q2. selfcall L (tFormLoop k c TT). }
+  destruct (startsCompound is_print (peek ps) NormalExpr) eqn:SC.
+  { pre L. destruct (tCompound k c TT NormalExpr _ H ltac:(bd)) as [[cn ps1] Q1]. rewrite Q1. cbv beta iota.
+    destruct (gCompound src c G NormalExpr _ _ _ H Q1) as [N _].
+    pose proof (pCompound c P _ _ _ _ H SC Q1) as Lt.
+    destruct (isRedirSign (peek ps1)) eqn:RS.
+    - destruct N as [N1 [N2 [N3 N4]]]. pose proof (SI_le src _ N1) as Sn1.
+      destruct (tRedir k c TT (Some cn) ps1 N1 RS (conj N2 N4) ltac:(bd)) as [[t2 ps2] Q2].
+      rewrite Q2. cbv beta iota.
+      destruct (gRedir src c G (Some cn) ps1 t2 ps2 N1 RS (conj N2 N4) Q2) as [R1 [R2 [R3 R4]]].
+      assert (NodeOK src ps t2 ps2) as N' by (split; [auto|split; [auto|split; [congruence|auto]]]).
+      pose proof (NodeOK_le src _ _ _ N') as Le2.
+      pose proof (WF_range src _ R2) as [Rg _]. rewrite R3, R4 in Rg.
+      ext L (push_node src _ _ _ _ (LoopOK_BF src _ _ _ _ L) N'). reroot L.
+      assert (pos ps < pos ps2) as Lt2.
+      { pose proof (WF_range src _ N2) as [Rc _]. rewrite N3, N4 in Rc.
+        pose proof (pRedir c P (Some cn) ps1 t2 ps2 N1 RS (conj N2 N4) Q2). lia. }
+      tspaces L as [b3 ps3] Q3. selfcall L (tFormLoop k c TT).
+    - ext L (push_node src _ _ _ _ (LoopOK_BF src _ _ _ _ L) N). reroot L.
+      tspaces L as [b3 ps3] Q3. selfcall L (tFormLoop k c TT). }
+  destruct (isRedirSign (peek ps)) eqn:RS; [|eauto].
+  pre L. destruct (tRedir k c TT None ps H RS I ltac:(bd)) as [[t1 ps1] Q1]. rewrite Q1. cbv beta iota.
+  destruct (gRedir src c G None ps t1 ps1 H RS I Q1) as [R1 [R2 [R3 R4]]].
+  assert (NodeOK src ps t1 ps1) as N' by (split; [auto|split; [auto|split; auto]]).
+  pose proof (pRedir c P None ps t1 ps1 H RS I Q1) as Lt.
+  ext L (push_node src _ _ _ _ (LoopOK_BF src _ _ _ _ L) N'). reroot L.
+  tspaces L as [b2 ps2] Q2. selfcall L (tFormLoop k c TT).
+Qed.
+
+Lemma redir_tot left ps : SI ps -> isRedirSign (peek ps) = true -> left_ok src left ps ->
+  bud ps 5 <= S k -> exists x, redir_body src c left ps = Some x.
+Proof.
+  intros H RS HL Hb. unfold redir_body, parseSpaces.
+  set (b0 := match left with Some l => mkNb (t_from l) [l] | None => mkNb (pos ps) [] end) in *.
+  assert (BF b0 (pos ps)) as HB0.
+  { destruct left as [l|]; [|apply BF_empty]. destruct HL as [W Tl].
+    pose proof (WF_range src _ W) as [R1 R2].
+    unfold b0, C01_Parse_proofs.BF, BI, cover; cbn [nb_ch nb_from rev app chain]. repeat split; auto; lia. }
+  destruct (redirSignLoop_total is_print src ps H) as [ps1 Q1]. rewrite Q1.
+  destruct (redirSignLoop_ok is_print src _ _ _ H Q1) as [[S1 Le1] _].
+  match goal with |- context [let '(_, _) := ?x in _] => destruct x as [mode ps2] eqn:Q2 end.
+  assert (SI ps2 /\ pos ps2 = pos ps1) as [S2 P2].
+  { repeat (match type of Q2 with (if ?x then _ else _) = _ => destruct x end);
+      inversion Q2; subst; split; auto; now apply error_SI. }
+  destruct (addSep_loop src b0 ps ps2 S2 (proj1 HB0) ltac:(lia)) as [A1 A2].
+  assert (LoopOK b0 ps (C01_Parse.addSep src b0 ps2) ps2) as L by (apply LoopOK_intro; auto; lia).
+  tspaces L as [b2 ps3] Q3.
+  tsep L as [[isfd b3] ps4] Q4. ext_sep L Q4.
+  tnode L (tCompound k c TT NormalExpr) (gCompound src c G NormalExpr) as [t5 ps5] Q5. eauto.
+Qed.
+
+Lemma compound_tot ctx : NodeT 4 (compound_body src c ctx) (S k).
+Proof.
+  intros ps H Hb. unfold compound_body.
+  destruct (Z.eqb_spec (peek ps) 126) as [Tl|Tl]; cbv zeta beta iota.
+  - assert (peek ps <> EOF) as NE by (rewrite Tl; unfold EOF, pkg_parse.eof; lia).
+    pose proof (adv_strict _ H NE) as Lt. destruct (adv_spec is_print src _ H) as [H1 _].
+    match goal with |- context [cCompoundLoop c ctx ?b ?p] => assert (BF b (pos p)) as HB end.
+    { destruct (peek_ascii is_print src ps 126 H Tl ltac:(reflexivity)) as [Hlt [Sk Pa]].
+      rewrite Pa. replace (S (pos ps) - 1) with (pos ps) by lia.
+      assert (Tx : [126%N] = slice src (pos ps) (S (pos ps))).
+      { unfold slice. replace (S (pos ps) - pos ps) with 1 by lia. now rewrite Sk. }
+      assert (C01_proofs.WF src (T KIndexing NormalExpr (pos ps) (S (pos ps)) [126%N]
+                   [T KPrimary PTilde (pos ps) (S (pos ps)) [126%N] []])) as Wi.
+      { constructor; auto; try lia; [intros _; cbn; auto|].
+        repeat constructor; auto; try lia. congruence. }
+      pose proof (push_ok src _ (pos ps) _ (BF_empty src _) Wi eq_refl) as X. cbn [t_to] in X. exact X. }
+    pose proof (SI_le src _ H1) as Sn.
+    destruct (tCompoundLoop k c TT ctx _ _ H1 HB ltac:(bd)) as [[b2 ps2] Q2]. rewrite Q2. eauto.
+  - destruct (tCompoundLoop k c TT ctx _ _ H (BF_empty src _) ltac:(bd)) as [[b2 ps2] Q2]. rewrite Q2. eauto.
+Qed.
+
+Lemma compoundLoop_tot ctx : LoopT 3 (compoundLoop_body is_print src c ctx) (S k).
+Proof.
+  intros b ps H HB Hb. unfold compoundLoop_body.
+  pose proof (LoopOK_refl src _ _ H HB) as L.
+  destruct (startsIndexing is_print (peek ps) ctx) eqn:SP; [|eauto].
+  tnode L (tIndexing k c TT ctx) (gIndexing src c G ctx) as [t1 ps1] Q1.
+  pose proof (pIndexing c P _ _ _ _ H SP Q1) as Lt. reroot L.
+  selfcall L (tCompoundLoop k c TT ctx).
+Qed.
+
+Lemma indexing_tot ctx : NodeT 2 (indexing_body src c ctx) (S k).
+Proof.
+  intros ps H Hb. unfold indexing_body.
+  pose proof (LoopOK_start src _ H) as L.
+  tnode L (tPrimary k c TT ctx) (gPrimary src c G ctx) as [t1 ps1] Q1.
+  tloop L (tIndexingLoop k c TT) (gIndexingLoop src c G) as [b2 ps2] Q2. eauto.
+Qed.
+
+Lemma indexingLoop_tot : LoopT 1 (indexingLoop_body is_print src c) (S k).
+Proof.
+  intros b ps H HB Hb. unfold indexingLoop_body.
+  pose proof (LoopOK_refl src _ _ H HB) as L.
+  tsep L as [[ok1 b1] ps1] Q1. destruct ok1; cbn [negb]; [|eauto].
+  pose proof (sep_strict _ _ _ _ _ H Q1 ltac:(lia)) as Lt. ext_sep L Q1. reroot L.
+  match goal with |- context [cArray c ?p] => set (ps2 := p) in * end.
+  assert (LoopOK b1 ps1 b1 ps2) as L2.
+  { unfold ps2. destruct (_ && _); [now apply LoopOK_error|exact L]. }
+  clear L. tnode L2 (tArray k c TT) (gArray src c G) as [t3 ps3] Q3.
+  tsep L2 as [[ok2 b4] ps4] Q4. ext_sep L2 Q4.
+  destruct ok2; cbn [negb]; [|eauto].
+  selfcall L2 (tIndexingLoop k c TT).
+Qed.
+
+Lemma array_tot : NodeT 6 (array_body src c) (S k).
+Proof.
+  intros ps H Hb. unfold array_body, parseSpacesAndNewlines.
+  pose proof (LoopOK_start src _ H) as L.
+  tspaces L as [b1 ps1] Q1.
+  tloop L (tArrayLoop k c TT) (gArrayLoop src c G) as [b2 ps2] Q2. eauto.
+Qed.
+
+Lemma arrayLoop_tot : LoopT 5 (arrayLoop_body is_print src c) (S k).
+Proof.
+  intros b ps H HB Hb. unfold arrayLoop_body, parseSpacesAndNewlines.
+  pose proof (LoopOK_refl src _ _ H HB) as L.
+  destruct (startsCompound is_print (peek ps) NormalExpr) eqn:SC; [|eauto].
+  tnode L (tCompound k c TT NormalExpr) (gCompound src c G NormalExpr) as [t1 ps1] Q1.
+  pose proof (pCompound c P _ _ _ _ H SC Q1) as Lt. reroot L.
+  tspaces L as [b2 ps2] Q2. selfcall L (tArrayLoop k c TT).
+Qed.
+
+Lemma lbracketLoop_tot hp he : LoopT 6 (fun b ps => lbracketLoop_body is_print src c b hp he ps) (S k).
+Proof.
+  intros b ps H HB Hb. unfold lbracketLoop_body, parseSpacesAndNewlines. cbv zeta.
+  pose proof (LoopOK_refl src _ _ H HB) as L.
+  destruct (Z.eqb_spec (peek ps) 38) as [P38|_].
+  { destruct (negb _).
+    - ext L (adv_addSep_ok is_print src _ _ (LoopOK_SI src _ _ _ _ L) (LoopOK_BI src _ _ _ _ L)).
+      tspaces L as [b2 ps2] Q2. eauto.
+    - rewrite (backup_adv is_print src _ H).
+      tnode L (tMapPair k c TT) (gMapPair src c G) as [t3 ps3] Q3.
+      pose proof (pMapPair c P _ _ _ H P38 Q3) as Lt. reroot L.
+      tspaces L as [b4 ps4] Q4. selfcall L (tLbracketLoop k c TT true he). }
+  destruct (startsCompound is_print (peek ps) NormalExpr) eqn:SC; [|eauto].
+  tnode L (tCompound k c TT NormalExpr) (gCompound src c G NormalExpr) as [t1 ps1] Q1.
+  pose proof (pCompound c P _ _ _ _ H SC Q1) as Lt. reroot L.
+  tspaces L as [b2 ps2] Q2. selfcall L (tLbracketLoop k c TT hp true).
+Qed.
+
+Lemma lambdaLoop_tot : LoopT 6 (lambdaLoop_body is_print src c) (S k).
+Proof.
+  intros b ps H HB Hb. unfold lambdaLoop_body, parseSpacesAndNewlines. cbv zeta.
+  pose proof (LoopOK_refl src _ _ H HB) as L.
+  destruct (Z.eqb_spec (peek ps) 38) as [P38|_].
+  { tnode L (tMapPair k c TT) (gMapPair src c G) as [t1 ps1] Q1.
+    pose proof (pMapPair c P _ _ _ H P38 Q1) as Lt. reroot L.
+    tspaces L as [b2 ps2] Q2. selfcall L (tLambdaLoop k c TT). }
+  destruct (startsCompound is_print (peek ps) NormalExpr) eqn:SC; [|eauto].
+  tnode L (tCompound k c TT NormalExpr) (gCompound src c G NormalExpr) as [t1 ps1] Q1.
+  pose proof (pCompound c P _ _ _ _ H SC Q1) as Lt. reroot L.
+  tspaces L as [b2 ps2] Q2. selfcall L (tLambdaLoop k c TT).
+Qed.
+
+Lemma bracedLoop_tot : LoopT 5 (bracedLoop_body src c) (S k).
+Proof.
+  intros b ps H HB Hb. unfold bracedLoop_body, parseSpacesAndNewlines.
+  pose proof (LoopOK_refl src _ _ H HB) as L.
+  destruct (isBracedSep (peek ps)) eqn:BS; [|eauto].
+  tspaces L as [b1 ps1] Q1. pre L.
+  tsep L as [[ok2 b2] ps2] Q2.
+  (* a comma or whitespace was consumed *)
+  assert (pos ps < pos ps2) as Lt.
+  { unfold isBracedSep in BS. apply orb_true_iff in BS as [BS|BS].
+    - apply Z.eqb_eq in BS.
+      destruct (isWhitespace (peek ps)) eqn:W; [rewrite BS in W; discriminate|].
+      (* no space consumed: the state is unchanged, the comma is parsed *)
+      destruct ok2.
+      + pose proof (sep_strict _ _ _ _ _ (LoopOK_SI src _ _ _ _ L) Q2 ltac:(lia)). lia.
+      + exfalso. unfold parseSpacesInner in Q1.
+        destruct (spacesLoop src (lfuel src) true ps) as [q|] eqn:SL; [|discriminate]. inversion Q1; subst.
+        unfold lfuel in SL. cbn [spacesLoop] in SL. rewrite BS in SL. cbn in SL. inversion SL; subst.
+        unfold parseSep in Q2. rewrite BS in Q2. cbn in Q2. discriminate.
+    - pose proof (parseSpaces_progress b ps true b1 ps1 H ltac:(rewrite BS; apply orb_true_r) Q1).
+      destruct (parseSep_ok is_print src _ _ _ _ _ _ (LoopOK_SI src _ _ _ _ L) (LoopOK_BF src _ _ _ _ L) Q2) as [L2 _].
+      pose proof (LoopOK_le _ _ _ _ L2). lia. }
+  ext_sep L Q2. reroot L.
+  tspaces L as [b3 ps3] Q3.
+  tnode L (tCompound k c TT BracedElemExpr) (gCompound src c G BracedElemExpr) as [t4 ps4] Q4.
+  selfcall L (tBracedLoop k c TT).
+Qed.
+
+Lemma mapPair_tot : NodeT 5 (mapPair_body src c) (S k).
+Proof.
+  intros ps H Hb. unfold mapPair_body, parseSpacesAndNewlines.
+  pose proof (LoopOK_start src _ H) as L.
+  tsep L as [[ok1 b1] ps1] Q1. ext_sep L Q1.
+  tnode L (tCompound k c TT LHSExpr) (gCompound src c G LHSExpr) as [k2 ps2] Q2.
+  match goal with |- context [parseSep src _ ?p 61%Z] => set (ps3 := p) in * end.
+  assert (LoopOK (mkNb (pos ps) []) ps (push k2 b1) ps3) as L3.
+  { unfold ps3. destruct (t_ch k2); [now apply LoopOK_error|exact L]. }
+  clear L. tsep L3 as [[eq4 b4] ps4] Q4. ext_sep L3 Q4.
+  destruct eq4; [|eauto].
+  tspaces L3 as [b5 ps5] Q5.
+  tnode L3 (tCompound k c TT NormalExpr) (gCompound src c G NormalExpr) as [v6 ps6] Q6. eauto.
+Qed.
+
+Lemma primary_tot ctx : NodeT 1 (primary_body is_print src c ctx) (S k).
+Proof.
+  intros ps H Hb. unfold primary_body, parseSpacesAndNewlines. cbv zeta.
+  destruct (startsPrimary is_print (peek ps) ctx) eqn:SP; cbn [negb]; [|eauto].
+  pose proof (starts_not_eof _ _ SP) as NE.
+  pose proof (adv_strict _ H NE) as Lt1.
+  destruct (adv_spec is_print src _ H) as [H1 _].
+  destruct (allowedInBareword is_print (peek ps) ctx).
+  { destruct (barewordLoop_total is_print src ctx ps H) as [q Q]. rewrite Q. eauto. }
+  destruct (Z.eqb (peek ps) 39).
+  { destruct (singleQuotedInner_total is_print src (lfuel src) (adv ps) H1) as [q Q].
+    { pose proof (SI_le src _ H1). unfold lfuel, C01_Parse.n. lia. }
+    rewrite Q. eauto. }
+  destruct (Z.eqb (peek ps) 34).
+  { destruct (doubleQuotedInner_total is_print src (lfuel src) (adv ps) H1) as [q Q].
+    { pose proof (SI_le src _ H1). unfold lfuel, C01_Parse.n. lia. }
+    rewrite Q. eauto. }
+  destruct (Z.eqb (peek ps) 36).
+  { destruct (variable_total is_print src ps H) as [q Q]. rewrite Q. eauto. }
+  destruct (Z.eqb (peek ps) 42).
+  { destruct (starLoop_total is_print src ps H) as [q Q]. rewrite Q. eauto. }
+  pose proof (LoopOK_start src _ H) as L.
+  destruct (Z.eqb (peek ps) 63).
+  { destruct (hasPrefix2 _ _ _ _); [|eauto].
+    ext L (adv2_addSep_ok is_print src _ _ (LoopOK_SI src _ _ _ _ L) (LoopOK_BI src _ _ _ _ L)).
+    destruct (adv_spec is_print src _ H1) as [_ [Le2 _]]. reroot L.
+    tnode L (tChunk k c TT) (gChunk src c G) as [t2 ps2] Q2.
+    texpect L as [b3 ps3] Q3. eauto. }
+  destruct (Z.eqb_spec (peek ps) 40) as [P40|_].
+  { rewrite (parseSep_peek _ _ _ P40). cbv beta iota.
+    ext L (adv_addSep_ok is_print src _ _ (LoopOK_SI src _ _ _ _ L) (LoopOK_BI src _ _ _ _ L)). reroot L.
+    tnode L (tChunk k c TT) (gChunk src c G) as [t2 ps2] Q2.
+    texpect L as [b3 ps3] Q3. eauto. }
+  destruct (Z.eqb_spec (peek ps) 91) as [P91|_].
+  { rewrite (parseSep_peek _ _ _ P91). cbv beta iota.
+    ext L (adv_addSep_ok is_print src _ _ (LoopOK_SI src _ _ _ _ L) (LoopOK_BI src _ _ _ _ L)). reroot L.
+    tspaces L as [b2 ps2] Q2.
+    tloopx L (tLbracketLoop k c TT false false) (gLbracketLoop src c G false false) as [[b3 ps3] [[lone hasP] hasE]] Q3.
+    texpect L as [b4 ps4] Q4.
+    destruct (lone || hasP); eauto. }
+  destruct (Z.eqb_spec (peek ps) 123) as [P123|_]; [|eauto].
+  rewrite (parseSep_peek _ _ _ P123). cbv beta iota.
+  ext L (adv_addSep_ok is_print src _ _ (LoopOK_SI src _ _ _ _ L) (LoopOK_BI src _ _ _ _ L)). reroot L.
+  match goal with |- context [if ?x then _ else _] => destruct x end.
+  - tspaces L as [b2 ps2] Q2.
+    tsep L as [[bar b3] ps3] Q3. ext_sep L Q3.
+    destruct bar.
+    + tspaces L as [b4 ps4] Q4.
+      tloop L (tLambdaLoop k c TT) (gLambdaLoop src c G) as [b5 ps5] Q5.
+      texpect L as [b6 ps6] Q6.
+      tnode L (tChunk k c TT) (gChunk src c G) as [t7 ps7] Q7.
+      texpect L as [b8 ps8] Q8. eauto.
+    + tnode L (tChunk k c TT) (gChunk src c G) as [t7 ps7] Q7.
+      texpect L as [b8 ps8] Q8. eauto.
+  - tnode L (tCompound k c TT BracedElemExpr) (gCompound src c G BracedElemExpr) as [t2 ps2] Q2.
+    tloop L (tBracedLoop k c TT) (gBracedLoop src c G) as [b3 ps3] Q3.
+    texpect L as [b4 ps4] Q4. eauto.
+Qed.
+
+Lemma step_tot : Tot (S k) (step is_print src c).
+Proof.
+  constructor; cbn [step cChunk cChunkLoop cPipeline cPipelineLoop cForm cFormLoop cRedir
+    cCompound cCompoundLoop cIndexing cIndexingLoop cArray cArrayLoop cPrimary cLbracketLoop
+    cLambdaLoop cBracedLoop cMapPair]; intros.
+  - apply chunk_tot.
+  - apply chunkLoop_tot.
+  - apply pipeline_tot.
+  - apply pipelineLoop_tot.
+  - apply form_tot.
+  - apply formLoop_tot.
+  - now apply redir_tot.
+  - apply compound_tot.
+  - apply compoundLoop_tot.
+  - apply indexing_tot.
+  - apply indexingLoop_tot.
+  - apply array_tot.
+  - apply arrayLoop_tot.
+  - apply primary_tot.
+  - apply lbracketLoop_tot.
+  - apply lambdaLoop_tot.
+  - apply bracedLoop_tot.
+  - apply mapPair_tot.
+Qed.
+
+End TotStep.
+
 Lemma parsers_prog fuel : Prog (parsers is_print src fuel).
 Proof.
   induction fuel as [|f IH]; [apply Prog0|]. cbn [parsers].
   apply step_prog; [apply parsers_good|exact IH].
 Qed.
 
+Lemma parsers_tot fuel : Tot fuel (parsers is_print src fuel).
+Proof.
+  induction fuel as [|f IH]; [apply Tot0|]. cbn [parsers].
+  apply step_tot; [apply parsers_good|apply parsers_prog|exact IH].
+Qed.
+
+(* the fuel of parse_model always suffices *)
+Lemma parse_total : exists t es, parse_model is_print src = Some (t, es).
+Proof.
+  unfold parse_model, parse_fuel.
+  destruct (tChunk _ _ (parsers_tot (FUELK * C01_Parse.n src + FUELK)) ps0 (SI_ps0 src)) as [[t ps] Q].
+  { unfold bud, FUELK, C01_Parse.n. cbn [pos ps0]. lia. }
+  rewrite Q. eauto.
+Qed.
+
 End TT.
+
+Lemma parse_total_lossless is_print src :
+  exists t es, parse_model is_print src = Some (t, es) /\ Spec_C01 src t es.
+Proof.
+  destruct (parse_total is_print src) as [t [es E]]. exists t, es. split; [exact E|].
+  exact (parse_spec is_print src _ t es E).
+Qed.
